@@ -25,15 +25,15 @@ def sh(cmd, cwd=None, timeout=1800):
     return r.returncode, r.stdout + r.stderr
 
 
-def build_demo(wt, demo, out, asan):
+def build_demo(wt, demo, out, asan, extra=""):
     if asan:
         srcs = " ".join(sorted(
             os.path.join(wt, "src", f) for f in os.listdir(os.path.join(wt, "src"))
             if f.endswith(".c") and f.startswith("vna") and "-example" not in f and not f.startswith("vnacal-")))
         cmd = ("clang -fsanitize=address,undefined -fno-sanitize-recover=undefined -g -O0 -w -DHAVE_CONFIG_H -I%s -I%s/src %s %s %s/src/archdep.c "
-               "-lyaml -lm -ldl -o %s" % (wt, wt, demo, srcs, wt, out))
+               "%s -lyaml -lm -ldl -o %s" % (wt, wt, demo, srcs, wt, extra, out))
     else:
-        cmd = "gcc -O1 -g -w -DHAVE_CONFIG_H -I%s -I%s/src -o %s %s %s/src/.libs/libvna.a -lyaml -lm -ldl" % (wt, wt, out, demo, wt)
+        cmd = "gcc -O1 -g -w -DHAVE_CONFIG_H -I%s -I%s/src -o %s %s %s/src/.libs/libvna.a %s -lyaml -lm -ldl" % (wt, wt, out, demo, wt, extra)
     return sh(cmd)
 
 
@@ -50,6 +50,10 @@ def main():
     meta = {"property": prop, "seed": n, "at": time.strftime("%Y-%m-%d %H:%M:%S"), "repo_head": sh("git -C /repo log --format=%h -1")[1].strip()}
     notes = open(os.path.join(src, "notes.txt")).read() if os.path.exists(os.path.join(src, "notes.txt")) else ""
     asan = "fsanitize" in notes or "asan" in notes.lower()
+    m = re.search(r"(-Wl,--wrap=\S+)", notes)
+    extra = m.group(1) if m else ""
+    if extra:
+        asan = False        # wrapped allocators: link against the static library
     try:
         rc, out = sh("git apply --3way %s/patch.diff || git apply %s/patch.diff" % (src, src), cwd=wt)
         rc2, out2 = sh("git diff --stat -- src", cwd=wt)
@@ -65,9 +69,9 @@ def main():
         meta["suite_fail_with_change"] = int(re.search(r"# FAIL:\s+(\d+)", out).group(1)) if re.search(r"# FAIL:\s+(\d+)", out) else -1
         demo = os.path.join(src, "demo.c")
         exe = os.path.join(wt, "demo_bin")
-        rc, out = build_demo(wt, demo, exe, asan)
+        rc, out = build_demo(wt, demo, exe, asan, extra)
         if rc != 0 and not asan:
-            rc, out = build_demo(wt, demo, exe, True)
+            rc, out = build_demo(wt, demo, exe, True, extra)
             asan = rc == 0 or asan
         meta["demo_build_with_change"] = rc
         rc, out = sh("timeout 300 %s" % exe, cwd=wt)
@@ -83,7 +87,7 @@ def main():
         # revert
         sh("git checkout -- .", cwd=wt)
         sh("make -C src -j4 2>&1 | tail -2", cwd=wt)
-        rc, out = build_demo(wt, demo, exe, asan)
+        rc, out = build_demo(wt, demo, exe, asan, extra)
         meta["demo_build_pristine"] = rc
         rc, out = sh("timeout 300 %s" % exe, cwd=wt)
         meta["demo_exit_pristine"] = rc
